@@ -222,12 +222,17 @@ def random_kill_case(rng, tier):
                 call_first=order[0] in BLOCKING and rng.random() < 0.5, seed=rng.randrange(1 << 30))
 
 
-def flush_kill_case(rng):
+def flush_kill_case(rng, frac=None):
     """SIGKILL aimed at the window in which the child has sent its result and is still flushing a large
-    log backlog (its feeder is then blocked in a pipe write, holding the queue's write lock)"""
+    log backlog (its feeder is then blocked in a pipe write, holding the queue's write lock).  `frac` in [0, 1)
+    places the kill within the 1.5 s after the target has started (the caller stratifies it: where the window
+    lies depends on the machine and its load)"""
     c = random_kill_case(rng, 'quick')
+    f = rng.random() if frac is None else frac
     c.update(outcome=['ret', 5], logs=30000, dur=0.0, call_first=False,
-             kill=dict(phase='random', sig=9, delay=round(rng.uniform(0.1, 1.6), 3), anchor='ready'))
+             kill=dict(phase='random', sig=9, delay=round(0.1 + 1.5 * f, 3), anchor='ready'))
+    if rng.random() < 0.5:
+        c['slow_handler'] = 0.0002
     return c
 
 
@@ -823,7 +828,15 @@ def _inner(case):
     tbp = out['tb_problems']
     if case.get('flood') or case.get('logs'):
         import logging
-        logging.getLogger().addHandler(logging.NullHandler())
+        if case.get('slow_handler'):
+            # a parent that handles records slowly: the child's log pipe is full most of the time, its queue feeder
+            # thread sits in a pipe write (holding the queue's cross-process write lock) while it flushes
+            class _Slow(logging.Handler):
+                def emit(self, record):
+                    time.sleep(case['slow_handler'])
+            logging.getLogger().addHandler(_Slow())
+        else:
+            logging.getLogger().addHandler(logging.NullHandler())
     spec = list(case['outcome']) + [case.get('raise_how') or 'plain']
     if case['kind'] == 'process':
         ready, after = mpm.Event(), mpm.Event()
